@@ -132,13 +132,14 @@ def host_key_alg_flags(tree: ast.AST) -> Dict[str, bool]:
 
     sigAlgPerConnection     `choose_server_host_key` never calls `set_sig_algorithm` on a key pair taken from the
                             shared `self._server_host_keys` mapping: every such call is on a name that was
-                            re-bound to a copy first (or there is no such call at all)
+                            bound to a `copy(...)` first (or there is no such call at all)
     clientChoosesHostKeyAlg `_process_kexinit` stores `_choose_alg(.., self._server_host_key_algs,
                             peer_host_key_algs)` in `self._host_key_alg`
     clientChecksKeyAlg      `validate_server_host_key` hands `self._host_key_alg` to `_validate_host_key`, which
                             refuses a certificate / key whose `host_key_algorithms` / `sig_algorithms` lack it
     clientChecksSigAlg      `validate_server_host_key` compares the algorithm named in the signature with
-                            `get_signature_alg(self._host_key_alg)` and raises KeyExchangeFailed otherwise"""
+                            `get_signature_alg(self._host_key_alg)` and raises KeyExchangeFailed otherwise, or
+                            restricts the returned key to that one signature algorithm"""
     flags: Dict[str, bool] = {}
     fn = T.find_def(tree, 'SSHServerConnection.choose_server_host_key')
     ok = True
@@ -146,8 +147,7 @@ def host_key_alg_flags(tree: ast.AST) -> Dict[str, bool]:
         tgt = ast.unparse(call.func.value)          # type: ignore
         copied = any(isinstance(n, ast.Assign) and len(n.targets) == 1 and ast.unparse(n.targets[0]) == tgt
                      and isinstance(n.value, ast.Call) and ast.unparse(n.value.func) in ('copy', 'copy.copy')
-                     and len(n.value.args) == 1 and ast.unparse(n.value.args[0]) == tgt
-                     and n.lineno < call.lineno for n in ast.walk(fn))
+                     and len(n.value.args) == 1 and n.lineno < call.lineno for n in ast.walk(fn))
         ok = ok and copied
     flags['sigAlgPerConnection'] = ok
     pk = T.find_def(tree, 'SSHConnection._process_kexinit')
@@ -175,12 +175,22 @@ def host_key_alg_flags(tree: ast.AST) -> Dict[str, bool]:
     flags['clientChecksKeyAlg'] = passed is not None and \
         any(f'{passed} not in cert.host_key_algorithms' in t for t in tests) and \
         any(f'{passed} not in key.sig_algorithms' in t for t in tests)
-    flags['clientChecksSigAlg'] = any(
+    # either an explicit comparison that raises KeyExchangeFailed, or the key handed back to the key exchange is
+    # restricted to the one signature algorithm (`host_key.all_sig_algorithms = {get_signature_alg(...)}`), so that
+    # `host_key.verify()` refuses any other
+    explicit = any(
         isinstance(n, ast.If) and isinstance(n.test, ast.Compare) and len(n.test.ops) == 1
         and isinstance(n.test.ops[0], ast.NotEq)
         and 'get_signature_alg(self._host_key_alg)' in (ast.unparse(n.test.left), ast.unparse(n.test.comparators[0]))
         and any(isinstance(b, ast.Raise) and 'KeyExchangeFailed' in ast.unparse(b) for b in n.body)
         for n in ast.walk(vs))
+    rets = [ast.unparse(n.value) for n in ast.walk(vs) if isinstance(n, ast.Return) and n.value is not None]
+    restricted = any(
+        isinstance(n, ast.Assign) and len(n.targets) == 1 and isinstance(n.targets[0], ast.Attribute)
+        and n.targets[0].attr == 'all_sig_algorithms' and ast.unparse(n.targets[0].value) in rets
+        and ast.unparse(n.value) == '{get_signature_alg(self._host_key_alg)}'
+        for n in ast.walk(vs))
+    flags['clientChecksSigAlg'] = explicit or restricted
     return flags
 
 
